@@ -15,11 +15,15 @@ def run(ctx):
     rodr = ctx.rule('R-ODR', '(cross-reference, all non-fault units) every inline / constexpr library function that is used is '
                     'defined in the unit that uses it', minimum=3)
     from rules import lib_core
+    rcf = ctx.rule('R-CASFRESH', 'in a compare-exchange retry loop every attempt re-tests the refreshed expected value '
+                   'against what the first attempt tested (sentinels are never overwritten by a retry)', minimum=6)
     tot = 0
     for cfg, fb in sorted(fbs.items()):
+        lib_order.check_cas_fresh(ctx, fb, rcf)
         lib_core.check_undefined_inline(ctx, fb, rodr)
         words = lib_order.WORDS.keys()
         if cfg == 'K17':
             words = [w for w in words if 'Mutex' not in w and 'Spinlock' not in w]
         tot += lib_order.check(ctx, fb, cfg, words, rw, ro, rc)
         lib_order.check_counter_reads(ctx, fb, ro)
+        lib_order.check_relaxed_decisions(ctx, fb, ro)
